@@ -720,7 +720,10 @@ def date_bin(stride, source, origin):
 
 @function([str, datetime.date, datetime.date], datetime.date, name='date_bin')
 def date_bin_str(stride, source, origin):
-    return date_bin(interval(stride), source, origin)
+    stride = interval(stride)
+    if stride is None:
+        return None
+    return date_bin(stride, source, origin)
 
 
 def aggregator(intypes, name=None):
